@@ -8,9 +8,9 @@ def run(tier, rep):
     exe = vlib.build_harness('checks/c12.cc', 'plain', ['-rdynamic'])
     d = vlib.scratch('c12')
     if tier == 'quick':
-        jobs = [('l1a', 2), ('l1b', 2), ('l1c', 2), ('l2a', 2), ('l2b', 2), ('l2c', 1)]
+        jobs = [('l1a', 2), ('l1b', 2), ('l1c', 2), ('l2a', 2), ('l2b', 2), ('l2c', 1), ('l3a', 2), ('l3b', 2), ('l3c', 1), ('l3d', 1), ('l3e', 1)]
     else:
-        jobs = [('l1a', 4), ('l1b', 3), ('l1c', 4), ('l2a', 3), ('l2b', 3), ('l2c', 2), ('l2d', 2)]
+        jobs = [('l1a', 4), ('l1b', 3), ('l1c', 4), ('l2a', 3), ('l2b', 3), ('l2c', 2), ('l2d', 2), ('l3a', 3), ('l3b', 3), ('l3c', 2), ('l3d', 2), ('l3e', 2)]
 
     def one(j):
         h, b = j
@@ -43,7 +43,23 @@ def run(tier, rep):
     env['BXDECAY0_DBD_GA_DATA_DIR'] = gadir
     env['TSAN_OPTIONS'] = 'halt_on_error=0 exitcode=66 report_signal_unsafe=0'
     reps = 15 if tier == 'quick' else 150
-    r = subprocess.run([texe, str(reps)], env=env, timeout=3000, stdout=subprocess.PIPE, stderr=subprocess.PIPE, text=True)
+
+    class R: pass
+    r = R()
+    r.stderr = ''
+    r.stdout = ''
+    r.returncode = 0
+    for group, nrep, nproc in ((0, reps, 1), (1, 2, 3 if tier == 'quick' else 12), (2, 2, 3 if tier == 'quick' else 12), (3, 2, 2 if tier == 'quick' else 8)):
+        for _ in range(nproc):
+            rr = subprocess.run([texe, str(nrep), str(group)], env=env, timeout=3000, stdout=subprocess.PIPE, stderr=subprocess.PIPE, text=True)
+            r.stderr += rr.stderr
+            if group == 0:
+                r.stdout = rr.stdout
+            if rr.returncode not in (0, 66) or 'done %d repetitions' % nrep not in rr.stdout:
+                r.returncode = rr.returncode if rr.returncode not in (0, 66) else 1
+                r.stderr += '\n[group %d exited %d]' % (group, rr.returncode)
+            elif rr.returncode == 66 and r.returncode == 0:
+                r.returncode = 66
     races = {}
     for m in re.finditer(r'WARNING: ThreadSanitizer: ([^\n(]+).*?(?=\nWARNING: ThreadSanitizer|\nThreadSanitizer: reported|\Z)', r.stderr, re.S):
         body = m.group(0)
@@ -63,7 +79,7 @@ def run(tier, rep):
         'evaluations': sched, 'distinct_nontrivial': states, 'distinct_outcomes': outcomes, 'exhaustive': exhaustive,
         'race_pass_repetitions': reps, 'race_reports': len(races), 'samples': samples or ['none'],
         'rule': 'cooperative scheduler over interposed synchronisation points (gsl_set_error_handler_off / gsl_set_error_handler / gsl_integration_qng entry+exit / '
-                'pthread_mutex_lock+unlock, a waiting lock is blocked) of the real library; every schedule up to the stated preemption bound is run in a forked child; '
+                'pthread_mutex_lock+unlock, a waiting lock is blocked; in the L3 harnesses also every request to the user-provided deviate source) of the real library; every schedule up to the stated preemption bound is run in a forked child; '
                 'pruning by observable state (handler state, per-thread step counters, blocked set) per remaining budget; L1 = threads calling decay0_gauss (smooth '
                 'integrand / integrand that makes QNG return GSL_ETOL), L2 = whole generators (construct, configure, initialise, 2 shots) compared with their sequential '
                 'events; oracle: no signal, no deadlock, handler restored, sequential results. Plus a free-running ThreadSanitizer pass of 8 concurrent generators '
